@@ -38,7 +38,7 @@ def alphabet():
 # Internal faults = malformed code or VM state (the property's examples: unknown op-code, missing routine,
 # stack underflow).  Type confusion between script values (a string or a time pattern where a number is
 # needed) is the script's own run-time error, like division by zero, and is not counted.
-INTERNAL = re.compile(r"(KeyError|OpCode\.|has no attribute 'get_address'|underflow|empty deque|"
+INTERNAL = re.compile(r"(KeyError|OpCode\.|<Operand\.|<Register\.|has no attribute 'get_address'|underflow|empty deque|"
                       r"'NoneType' and 'int'|'NoneType' object|takes \d+ positional|missing \d+ required|index out of range|"
                       r"object has no attribute)")
 SCRIPT_ERRORS = re.compile(r"(division by zero|float division|modulo by zero|'str' and|and 'str'|'TimePattern'|instances of 'str'|"
@@ -216,6 +216,9 @@ RULES = [
     ('missing end', 'if {v > 0} begin on all'), ('missing end in routine', 'define o begin on all'),
     ('missing end in repeat', 'repeat 2 begin on all'), ('unbalanced brace', 'hue {1 + 2'), ('unbalanced brace 2', 'hue 1 + 2}'),
     ('unbalanced bracket', 'hue [f 1'), ('unbalanced parenthesis', 'hue {(1 + 2}'), ('unbalanced parenthesis 2', 'hue {1 + 2)}'),
+    ('macro made from an undefined name', 'define q nosuch'), ('macro without a value', 'define q define r2 5'), ('macro made from an undefined name, then used', 'define q nosuch hue q'),
+    ('routine redefines a macro', 'define m begin on all end'), ('macro redefines a routine', 'define f 5'), ('macro redefines a routine by a string', 'define g "x"'),
+    ('loop variable named like a macro', 'repeat with m from 1 to 3 on all'), ('light variable named like a macro', 'repeat all as m on all'),
     ('hour 24', 'time at 24:00 on all'), ('hour 24 among alternatives', 'time at 6:00 or 24:05 on all'), ('hour 24 as a macro', 'define tp 24:15'),
     ('minute 60', 'time at 7:60 on all'),
     ('malformed time pattern', 'time at 12:5 on all'), ('malformed time pattern 2', 'time at 25:00 on all'),
@@ -223,6 +226,15 @@ RULES = [
     ('malformed time pattern in assign', 'assign tp 12:60'), ('malformed time pattern as macro', 'define tp 3*:00 time at tp on all'), ('minus before time pattern', 'time at -1:00 on all'),
     ('minus before time pattern value', 'assign t -1:00'), ('stray end', 'on all end'), ('stray else', 'on all else off all'),
     ('missing operand', 'set'), ('missing value', 'hue'), ('string as number', 'hue "abc"'), ('zone on power', 'on "Z" zone 1'),
+]
+
+
+ODD_FORMS = [
+    'on "A" row 1', 'off "Q" column 2', 'on "M" row 0 1 column 2', 'on default', 'off default', 'set default', 'set "M" begin on "A" end',
+    'set "M" begin off "A" stage row 1 end', 'set "M" begin get "A" stage row 1 end', 'set "M" begin units raw stage row 1 end', 'set "M" begin end',
+    'printf "{1}" 5', 'printf "{0} {0}" 1 2', 'hue 12:30 set all', 'repeat with i in "a" print i', 'get "Z" zone 1', 'set group "G1" zone 1 2',
+    'define k begin end assign x [k] print {x + 1}', 'f not 1', 'print not v', 'set "A" and', 'on "A" and "B" and group "G1" and location "L1"',
+    'repeat in "A" and "A" as l begin on l end', 'repeat group as grp begin on group grp end', 'set {lt}', 'assign z {lt} set z', 'wait', 'time at 1:00 wait',
 ]
 
 
@@ -265,6 +277,13 @@ def rule_worker(args):
                 res.violation('rules|%s|%s' % (name, sig_detail(bad)), 'rule breaker (%s) %s\n  script: %s' % (name, bad, prefix + snippet + suffix),
                               inputs={'text': text}, replayed=True)
                 break
+    # odd but well-formed command forms: accepted and executable, or rejected with a line -- never an internal fault of the VM
+    for text in ODD_FORMS:
+        res.nontrivial += 1
+        world.configure()
+        cat, detail = classify_text(PREAMBLE + '\n' + text)
+        if cat is not None and cat != 'truncated program accepted':
+            res.violation('odd-forms|%s|%s' % (cat, sig_detail(detail)), '%s: %s\n  script: %s' % (cat, detail, text), inputs={'text': text}, replayed=True)
     res.sample({'rules': [n for n, _ in RULES]})
     res.functions = world.functions_seen()
     return res
